@@ -430,16 +430,34 @@ def rule_R5(ck):
     if missing:
         ck.violation(where, f"a file 'early: / .extern all / late: / latec = 5' exports {ps[0].value}; {missing} missing: '.extern all' must export the names defined before it AND switch exporting on for every "
                             "definition after it in the same file (moving a definition across the directive must not change what other files can see)", construct="extern all reaches later statements")
-    # parser: a local label cannot be exported
-    fn = repo.func("parser::label")
-    ok = False
-    for n in walk_local(fn):
-        if isinstance(n, ast.If) and "isdigit" in norm_text(n.test) and "is_extern" in norm_text(n.test):
-            clears = any(isinstance(s, ast.Assign) and norm_text(s.targets[0]) == "is_extern" and norm_text(s.value) == "False" for s in n.body)
-            ok = clears and guards.body_reports(n.body)
-    ck.instance(("local-export",), {"parser refuses '1::'": ok}, fn="parser::label")
-    if not ok:
-        ck.violation("parser::label", "a local (numeric) label written with '::' is not refused (reported and treated as not exported)", construct="local label export")
+    # parser: a local label cannot be exported ('1::' is refused and read as '1:'), ordinary labels carry their export flag
+    from .c05 import run_parser
+    I4 = lazy(repo)
+    for text, want_name, want_extern, want_error in (("x::", "x", True, False), ("x:", "x", False, False), ("1:", "1", False, False), ("1::", "1", False, True), ("10$::", "10$", False, True), ("abc1::", "abc1", True, False)):
+        r, pos, errs, raised = run_parser(I4, "label", text)
+        got = (r.fields.get("name"), r.fields.get("is_extern")) if isinstance(r, Rec) else None
+        ck.instance(("label-syntax", text), {"text": text, "label": repr(got), "errors": errs}, fn="parser::label")
+        if raised or got != (want_name, want_extern) or bool(errs) != want_error:
+            ck.violation("parser::label", f"the label '{text}' parses to (name, exported) = {got!r} with errors {errs} (raised {raised}); expected {(want_name, want_extern)!r} and "
+                                          f"{'an error: a local label cannot be exported' if want_error else 'no error'}", construct="label export syntax")
+
+
+def rule_R5x(ck):
+    """references to local labels inside expressions: '10$' and '10$:' name the local label 10$, '1:' the local label 1, a bare '1'
+    is a number (the local-label parser must decline it)"""
+    from .c05 import run_parser
+    repo = ck.repo
+    I = lazy(repo)
+    for text, want in (("10$", ("10$", False)), ("10$:", ("10$", True)), ("1:", ("1", True)), ("7", None), ("12", None)):
+        try:
+            r, pos, errs, raised = run_parser(I, "local_symbol_expression", text)
+        except Unknown:
+            r, pos, errs, raised = None, 0, [], "no parse"
+        got = (r.fields.get("name"), r.fields.get("is_necessarily_label")) if isinstance(r, Rec) else None
+        ck.instance(("local-reference", text), {"text": text, "parsed as": repr(got), "declined": raised}, fn="parser::local_symbol_expression")
+        if got != want or (want is not None and (raised or errs)):
+            ck.violation("parser::local_symbol_expression", f"in an expression '{text}' is read as {got!r} (declined: {raised}); expected {want!r}" + (" - a bare number is a number, not a reference to a local label" if want is None else ""),
+                         construct="local label reference syntax")
 
 
 def rule_R6x(ck):
@@ -502,6 +520,7 @@ def rule_R6x(ck):
 
 
 def run(ck):
+    ck.run_rule("C11.R5x", "references to local labels in expressions: 10$, 10$:, 1: - and a bare number is a number", 5, rule_R5x)
     ck.run_rule("C11.R6x", "two files end to end: exported names cross files in either order, own definitions win, private names stay private", 4, rule_R6x)
     ck.run_rule("C11.R1", "writer/reader agreement of symbol-table keys; candidate order", 5, rule_R1)
     ck.run_rule("C11.R1k", "prefix grammar is injective (counter followed by a non-digit separator)", 3, rule_R1k)
